@@ -219,10 +219,12 @@ func (w *World) Quiesce() error {
 	lastSeq := -1
 	pause := 20 * time.Microsecond
 	extraOf := func() int {
+		// duty requests held by Node.Hold are part of the quiescent state
+		n := w.Node.Held()
 		if w.opt.ExtraGoroutines != nil {
-			return w.opt.ExtraGoroutines()
+			n += w.opt.ExtraGoroutines()
 		}
-		return 0
+		return n
 	}
 	for {
 		// The allowance (e.g. one goroutine per job of a real scheduler) and the log are
@@ -266,6 +268,7 @@ func (w *World) Stop() {
 	if w.Proc == nil {
 		return
 	}
+	w.Node.Release("")
 	w.Proc.cancel()
 	w.Proc = nil
 }
